@@ -19,7 +19,8 @@ EXPLANATION = (
     "is_held() follows the metadata-file write, its false edge raises the conflict, and no storage call lies between fence "
     "and commit point; (R3) on supports_cas branches the pointer is only written conditionally, write_file_cas sets exactly one "
     "of IfNoneMatch/IfMatch on every path, maps precondition failures to CASConflictError and is not retried; (R4) conflict -> "
-    "retryable (C04.R1); (R5) lock mutations are CAS (C19.R3).")
+    "retryable (C04.R1); (R5) lock mutations are CAS (C19.R3)."
+    ' Also: after a successful pointer read its ETag reaches the conditional write on every path; ETag reads are followed through helper functions; (R6) the fence returns decided constants only.')
 NOT_DECIDED = "the schedules themselves; S3's conditional-write semantics"
 
 
